@@ -63,7 +63,7 @@ def write_cfg(path, spec, constants, invariants, subst=None, properties=None, co
 
 
 def run_mc(name, module, constants, invariants, subst=None, workers=8, timeout=3000,
-           properties=None, constraint=None, allow_violation=False, spec="Spec"):
+           properties=None, constraint=None, allow_violation=False, spec="Spec", max_cases=400000):
     """Flow A: model-checks `module` and returns
     {states, distinct, cases:[...], seconds, violated: invariant-or-None, out}."""
     d = os.path.join(WORK, "mc_" + name)
@@ -73,17 +73,33 @@ def run_mc(name, module, constants, invariants, subst=None, workers=8, timeout=3
     write_cfg(cfg, spec, constants, invariants, subst, properties, constraint)
     # TLC wants the cfg next to the module or given by path; modules are read from SPEC
     t0 = time.time()
-    r = sh(["timeout", str(timeout), "tlc", "-workers", str(workers), "-config", cfg,
-            "-metadir", os.path.join(d, "states"), "-cleanup", "-noGenerateSpecTE",
-            os.path.join(SPEC, module + ".tla")], cwd=SPEC, env=tlc_env())
+    # TLC's output goes to a file: a thorough configuration prints millions of CASE lines
+    outp = os.path.join(d, "out.txt")
+    with open(outp, "w") as f:
+        r = subprocess.run(["timeout", str(timeout), "tlc", "-workers", str(workers), "-config", cfg,
+                            "-metadir", os.path.join(d, "states"), "-cleanup", "-noGenerateSpecTE",
+                            os.path.join(SPEC, module + ".tla")], cwd=SPEC, env=tlc_env(),
+                           stdout=f, stderr=subprocess.STDOUT, text=True)
     dt = time.time() - t0
-    out = r.stdout
-    with open(os.path.join(d, "out.txt"), "w") as f:
-        f.write(out)
-    cases = []
-    for line in out.splitlines():
-        if line.startswith('"CASE '):
-            cases.append(json.loads(json.loads(line)[5:]))
+    ncase, rest = 0, []
+    with open(outp) as f:
+        for line in f:
+            if line.startswith('"CASE '):
+                ncase += 1
+            else:
+                rest.append(line)
+                if len(rest) > 4000:
+                    del rest[:2000]
+    out = "".join(rest)
+    # at most max_cases behaviours are handed on (every stride-th CASE line, in TLC's output order)
+    stride = max(1, -(-ncase // max_cases))
+    cases, i = [], 0
+    with open(outp) as f:
+        for line in f:
+            if line.startswith('"CASE '):
+                if i % stride == 0:
+                    cases.append(json.loads(json.loads(line)[5:]))
+                i += 1
     m = re.search(r"(\d[\d,]*) states generated, (\d[\d,]*) distinct states found", out)
     violated = None
     mv = re.search(r"Error: Invariant (\w+) is violated", out)
@@ -101,8 +117,8 @@ def run_mc(name, module, constants, invariants, subst=None, workers=8, timeout=3
         sys.stderr.write(out[-6000:])
         raise ToolError("the DESIGN violates %s in %s: the specification itself is wrong" % (violated, module))
     return {"generated": int(m.group(1).replace(",", "")), "distinct": int(m.group(2).replace(",", "")),
-            "cases": cases, "seconds": dt, "violated": violated, "out": out, "module": module,
-            "constants": constants}
+            "cases": cases, "case_lines": ncase, "case_stride": stride, "seconds": dt, "violated": violated,
+            "module": module, "constants": constants}
 
 
 def write_ndjson(path, recs):
